@@ -24,6 +24,7 @@ var c06Mu sync.Mutex
 var c06Msgs []string
 var c06Bodies []string
 var c06Case int
+var c06SentinelLost int
 
 func init() {
 	register("C06", &Prop{Gen: c06Gen, Run: c06Run, Init: c06Init, Done: func() {
@@ -102,9 +103,22 @@ func c06Run(c string) string {
 			res = append(res, c06Exec(nc, prefix, op))
 		}
 	}
-	// quiesce: a sentinel write of each kind, wait for its rebroadcast
+	// quiesce: a sentinel write of each kind, wait for its rebroadcast. A sentinel that is never rebroadcast means the
+	// rebroadcast itself is broken: the case says so, and later cases stop waiting seconds for it.
+	lost := false
 	wait := func(subj string) {
-		deadline := time.Now().Add(3 * time.Second)
+		limit := 3 * time.Second
+		if c06SentinelLost > 2 {
+			limit = 100 * time.Millisecond
+		}
+		deadline := time.Now().Add(limit)
+		missing := true
+		defer func() {
+			if missing {
+				lost = true
+				c06SentinelLost++
+			}
+		}()
 		for time.Now().Before(deadline) {
 			c06Mu.Lock()
 			found := false
@@ -115,6 +129,7 @@ func c06Run(c string) string {
 			}
 			c06Mu.Unlock()
 			if found {
+				missing = false
 				return
 			}
 			time.Sleep(200 * time.Microsecond)
@@ -163,6 +178,9 @@ func c06Run(c string) string {
 	}
 	sort.Strings(subs)
 	res = append(res, final)
+	if lost {
+		return strings.Join(res, ",") + " ## SENTINEL-NOT-REBROADCAST"
+	}
 	return strings.Join(res, ",") + " ## " + joinListSep(subs, ",")
 }
 
